@@ -8,8 +8,9 @@
 From Coq Require Import List NArith.
 From NV Require Import Fasta.Layout Fasta.LayoutProofs Fasta.Indexer Fasta.IndexerProofs
                        Fasta.Query Fasta.QueryProofs Fasta.Reader Fasta.WriterProofs
-                       Fasta.Fastq Fasta.FastqProofs Fasta.Delivery Fasta.DeliveryProofs.
-From NV Require Import Io.Source Io.FastaScan.
+                       Fasta.Fastq Fasta.FastqProofs Fasta.Delivery Fasta.DeliveryProofs
+                       Fasta.WholeFile.
+From NV Require Import Io.Source Io.FastaScan Io.Run.
 Import ListNotations.
 Open Scope N_scope.
 
@@ -119,6 +120,25 @@ Theorem c11_query_repaired_start_beyond : forall f recs err r s e,
   f_len r < st -> query_record true f r s e = QErrInvalidInput.
 Proof. exact query_checked_beyond. Qed.
 Print Assumptions c11_query_repaired_start_beyond.
+
+(* ---- the whole file ----
+   [naive_file f] (NV.Fasta.Layout) is the naive whole-file parse: one (name, bases) pair per line
+   that starts with '>'.  The fai records returned by the indexer are, in order, the records of
+   the naive parse - all of them when the indexer succeeds, the first |recs| of them when it stops
+   with an error - and each of them [rec_matches]: same name, length = number of bases, every base
+   at the computed offset, and (bases without CR and '>') every region query with
+   1 <= start <= length, start <= end exact.  So no record is skipped, duplicated or merged. *)
+Theorem c11_whole_file : forall f recs e,
+  index_file f = (recs, e) ->
+  Forall2 (rec_matches f) recs (firstn (length recs) (naive_file f)) /\
+  (e = None -> length recs = length (naive_file f)).
+Proof. exact index_file_whole. Qed.
+Print Assumptions c11_whole_file.
+
+Theorem c11_whole_file_accepted : forall f recs,
+  index_file f = (recs, None) -> Forall2 (rec_matches f) recs (naive_file f).
+Proof. exact index_file_whole_ok. Qed.
+Print Assumptions c11_whole_file_accepted.
 
 (* ---- FASTA writer / reader round trip, at every line width, for whole files ----
 
@@ -269,6 +289,17 @@ Proof.
 Qed.
 Print Assumptions c11_query_exact_any_delivery.
 
+(* The sequential reader: C12's model of read_sequence (read_to_end over the sequence reader)
+   over any scripted source behind a BufReader of any capacity returns the sequence of the
+   line-driven reader model used in c11_fasta_writer_reader (composition with C12's
+   c12_fasta_scanner_chunk_indep). *)
+Theorem c11_fasta_read_sequence_any_delivery : forall data sc cap,
+  (1 <= cap)%nat ->
+  exists s', run_read_sequence cap (mkSource data sc)
+             = (SOk, fst (read_seq_lines (lines data)), s').
+Proof. exact read_sequence_any_delivery. Qed.
+Print Assumptions c11_fasta_read_sequence_any_delivery.
+
 (* ---- non-vacuity ---- *)
 
 (* ">s d\r\nACGT\r\nACGT\r\nAC\r\n>t\nGG\n": CRLF, short last line, a second record *)
@@ -340,4 +371,8 @@ Proof. vm_compute. reflexivity. Qed.
 Example c11_example_delivered :
   index_and_query_delivered 1 ex_file [Interrupted; Deliver 1; Interrupted; Deliver 2] [115] (Some 4) (Some 9)
   = (SOk, QOk [84;65;67;71;84;65]).
+Proof. vm_compute. reflexivity. Qed.
+
+Example c11_example_naive_file :
+  naive_file ex_file = [([115], [65;67;71;84;65;67;71;84;65;67]); ([116], [71;71])].
 Proof. vm_compute. reflexivity. Qed.
